@@ -794,6 +794,9 @@ let do_eps id ins outs =
   | [opss], [outss] ->
     let ops = String.split_on_char ';' opss and os = String.split_on_char ';' outss in
     let offer = ref [0; 1] and mask = ref 7 and elected = ref (-1) in
+    (* stale.(e): server e has been down since the last exchange with it: the pooled connection to it is dead, and a
+       DoH POST is not replayed by the transport -- the first query after it is back may fail (and reconnects) *)
+    let stale = Array.make 3 false in
     let name e = hex_of_string (Printf.sprintf "https://doh.test#127.0.0.%d" (e + 1)) in
     let elect () =
       let en = { provs = [PEps (List.map z_of_int !offer)];
@@ -805,10 +808,13 @@ let do_eps id ins outs =
     let problems = ref [] in
     (try List.iteri (fun i (o, out) ->
         match String.split_on_char ':' o with
-        | ["H"; m] -> mask := int_of_string m
+        | ["H"; m] -> mask := int_of_string m;
+          Array.iteri (fun e _ -> if !mask land (1 lsl e) = 0 then stale.(e) <- true) stale
         | ["P"; l] -> offer := List.map int_of_string (String.split_on_char ',' l)
         | ["E"] ->
           let changed = elect () in
+          (* the election probes the candidates in order up to the elected one: those exchanges reconnect *)
+          (let rec upto = function [] -> () | e :: r -> if !mask land (1 lsl e) <> 0 then stale.(e) <- false; if e <> !elected then upto r in upto !offer);
           let want = if changed then name !elected else "same" in
           if out <> want then problems := Printf.sprintf "op %d (election, servers up mask %d, offer %s): announced %s, first healthy candidate in order is %s" i !mask
                 (String.concat "," (List.map string_of_int !offer)) (if out = "same" then "no change" else string_of_bytes (bytes_of_token out))
@@ -816,9 +822,13 @@ let do_eps id ins outs =
         | ["Q"] ->
           let boot = (!elected < 0) in
           let changed = if boot then elect () else false in
+          if boot then (let rec upto = function [] -> () | e :: r -> if !mask land (1 lsl e) <> 0 then stale.(e) <- false; if e <> !elected then upto r in upto !offer);
           let up = !mask land (1 lsl !elected) <> 0 in
           let want = (if up then Printf.sprintf "s%d" !elected else "none") ^ (if changed then "/" ^ name !elected else "") ^ (if up then "/0" else "/1") in
-          if out <> want then problems := Printf.sprintf "op %d (query, elected 127.0.0.%d, servers up mask %d): observed %s expected %s" i (!elected + 1) !mask out want :: !problems
+          let want_stale = "none" ^ (if changed then "/" ^ name !elected else "") ^ "/1" in
+          let was_stale = !elected >= 0 && stale.(!elected) in
+          if up && !elected >= 0 then stale.(!elected) <- false;
+          if out <> want && not (up && was_stale && out = want_stale) then problems := Printf.sprintf "op %d (query, elected 127.0.0.%d, servers up mask %d): observed %s expected %s" i (!elected + 1) !mask out want :: !problems
         | _ -> ()) (List.combine ops os)
      with Invalid_argument _ -> problems := ["ops/outs length"]);
     let tag = Printf.sprintf "ops%d" (min (List.length ops) 9) in
@@ -1016,8 +1026,15 @@ let do_rc id ins outs =
                 let renames = List.filter (fun (_, o) -> match o with Rename (_, _) -> true | _ -> false) idxs in
                 if List.length renames >= j then fst (List.nth renames (j-1)) else nops end in
             if kk < nops then incr ncrash;
-            crash_activate f d (nat_of_int kk)
-          | ["D"; k] -> let ki = int_of_string k in if ki < List.length (deactivate_ops f) then incr ncrash; crash_deactivate f (nat_of_int ki)
+            (* the kill is delivered while the traced process is in the numbered system call: that call has, rarely,
+               already taken effect when the process dies -- the state one mutation further is the same crash point *)
+            let f1 = crash_activate f d (nat_of_int kk) in
+            if enc f1 <> st && ki >= 0 && kk < nops && enc (crash_activate f d (nat_of_int (kk + 1))) = st
+            then crash_activate f d (nat_of_int (kk + 1)) else f1
+          | ["D"; k] -> let ki = int_of_string k in if ki < List.length (deactivate_ops f) then incr ncrash;
+            let f1 = crash_deactivate f (nat_of_int ki) in
+            if enc f1 <> st && ki < List.length (deactivate_ops f) && enc (crash_deactivate f (nat_of_int (ki + 1))) = st
+            then crash_deactivate f (nat_of_int (ki + 1)) else f1
           | _ -> failwith "rc event") in
         (* the temporary file of a killed writer may hold a partial last line only if a write was torn: never with one write per line *)
         if enc f' <> st then problems := Printf.sprintf "after %s: impl=%s model=%s" e st (enc f') :: !problems;
